@@ -38,9 +38,10 @@ Proof. intros c init n0 (H1 & H2 & H3 & H4). exact (quiescent_outcome c init n0 
 Print Assumptions C14_outcome.
 
 (* ... so an append issued after the others have finished (whether they succeeded, were refused, or failed
-   in the middle of the critical section) always succeeds *)
+   in the middle of the critical section) always succeeds ([away c t = false]: the call names this file, not a
+   file whose write the OS refuses) *)
 Theorem C14_later_append_succeeds : forall c init n0, WellFormed c init n0 -> forall sch t,
-  let s := run c sch (init_st init) in quiescent s -> pcs s t = PStart -> bad c t = false ->
+  let s := run c sch (init_st init) in quiescent s -> pcs s t = PStart -> bad c t = false -> away c t = false ->
   exists s', replay c [t; t; t; t; t; t; t] s = Some s' /\
              pcs s' t = PDoneOk (S (n0 + length (log s))) /\ log s' = log s ++ [t].
 Proof. intros c init n0 (H1 & H2 & H3 & H4). exact (later_append_succeeds c init n0 H1 H2 H3 H4). Qed.
@@ -52,3 +53,31 @@ Theorem C14_progress : forall c init n0, WellFormed c init n0 -> forall sch t,
   pcs s t <> PStart -> finished (pcs s t) = false -> exists t', step c s t' <> None.
 Proof. intros c init n0 (H1 & H2 & H3 & H4). exact (progress c init n0 H1 H2 H3 H4). Qed.
 Print Assumptions C14_progress.
+
+(* A failed call leaves nothing behind, I (calls on other files). [away c t]: the call of thread t names another
+   record file and fails there in its write (ENOSPC, EDQUOT, EFBIG, EIO). For EVERY history, erasing those calls
+   from it changes nothing: the file, the order of the completed writes, the lock state and the program counter -
+   hence the result - of every call on this file are the same as in the history in which the failed calls never
+   happened. No hypothesis on the configuration. *)
+Theorem C14_failed_elsewhere_leaves_nothing : forall c init sch,
+  let s := run c sch (init_st init) in
+  let s' := run c (filter (fun t => negb (away c t)) sch) (init_st init) in
+  file s = file s' /\ log s = log s' /\ owner s = owner s' /\ (forall p, tbl s p = tbl s' p) /\
+  (forall t, away c t = false -> pcs s t = pcs s' t) /\
+  (forall t, away c t = true -> pcs s t = PStart \/ pcs s t = PDoneErr).
+Proof. exact failed_elsewhere_leaves_nothing. Qed.
+Print Assumptions C14_failed_elsewhere_leaves_nothing.
+
+(* A failed call leaves nothing behind, II (same file). A call whose write fails inside the critical section, issued
+   while nobody else is inside a call, returns the error and gives back exactly the state it found: file, log,
+   flock, table and the other calls' program counters - so whatever is appended later gets the result it would
+   have got without the failed call. (Concurrent failed calls: C14_outcome and C14_record_intact hold for every
+   schedule, with [bad] threads in it.) *)
+Theorem C14_failed_append_leaves_nothing : forall c init n0, WellFormed c init n0 -> forall sch u,
+  let s := run c sch (init_st init) in
+  quiescent s -> pcs s u = PStart -> bad c u = true -> away c u = false ->
+  exists s', replay c [u; u; u; u; u; u] s = Some s' /\ pcs s' u = PDoneErr /\
+             file s' = file s /\ log s' = log s /\ owner s' = owner s /\ (forall p, tbl s' p = tbl s p) /\
+             (forall t, t <> u -> pcs s' t = pcs s t).
+Proof. intros c init n0 (H1 & H2 & H3 & H4). exact (failed_append_leaves_nothing c init n0 H1 H2 H3 H4). Qed.
+Print Assumptions C14_failed_append_leaves_nothing.
